@@ -24,7 +24,8 @@ SYS_CLASSES = ["write", "read", "trunc", "open", "lseek", "fsync", "close"]
 ALLOC_CLASSES = ["malloc", "calloc", "realloc", "strdup"]
 KINDS = ["ENOSPC", "EIO", "EINTR"]
 TOOLS = ["gensquashfs", "tar2sqfs", "sqfs2tar", "rdsquashfs"]
-TIMEOUT = 20
+TIMEOUT = 90            # a run needs ~50 ms on an idle machine; see rerun_if_timeout
+TIMEOUT_ISOLATED = 600
 
 
 # ------------------------------------------------------------------------------------------------ build
@@ -291,7 +292,7 @@ def gen_cases(ctx, d, rng, tools, scale=1, jobs="1"):
     # an image for the readers, made by the (fault-free) packer built from the same tree
     img = d / "img.sqfs"
     r = vlib.sh([str(tools["gensquashfs"]), "-F", str(T / "pack.txt"), "-D", str(T), "-A", str(T / "xattr.txt"), "-b", str(BS), "-j", "1",
-                 "-e", "-q", str(img)], env=ctx.san_env(), timeout=120, stdout=subprocess.DEVNULL)
+                 "-e", "-q", str(img)], env=ctx.san_env(), timeout=TIMEOUT_ISOLATED, stdout=subprocess.DEVNULL)
     if r.returncode != 0:
         raise vlib.CheckFailure("cannot build the reader image: " + r.stderr[-1000:])
     cases += [
@@ -466,24 +467,28 @@ def run(ctx):
     work.mkdir()
     scale = 1 if ctx.quick() else 4
     cases = gen_cases(ctx, ctx.scratch / "in", random_for(ctx.seed), tools, scale=scale, jobs="1")
-    nworkers = 6 if ctx.quick() else max(6, vlib.NCPU - 2)
+    nworkers = int(os.environ.get("VERIF_JOBS", "0")) or (4 if ctx.quick() else max(4, vlib.NCPU - 2))
     stats = {"runs": 0, "fired": 0, "verdicts": {}, "by_case": {}, "post_fault_output_writes": {}, "model_compared": 0,
              "model_sites": {}, "tolerated": 0}
     distinct, samples, monitor_lines, monitor_expect = set(), [], [], []
     corr_bad = 0
     for case in cases:
         exe = tools[case.tool]
-        base = run_case(case, exe, work / "base", None, env_base=env, timeout=120)
+        base = run_case(case, exe, work / "base", None, env_base=env, timeout=TIMEOUT_ISOLATED)
         if base["rc"] != 0 or base["out"] == "absent":
             report("base:" + case.name, "fault-free run of %s fails: rc=%s %s" % (case.name, base["rc"], base["stderr"][-300:]),
                           {"case": case.name, "argv": case.argv}, found_input=False)
             continue
-        base2 = run_case(case, exe, work / "base2", None, env_base=env, timeout=120)
+        base2 = run_case(case, exe, work / "base2", None, env_base=env, timeout=TIMEOUT_ISOLATED)
         if base2["out"] != base["out"]:
             report("nondet:" + case.name, "two fault-free runs of %s differ" % case.name, {"case": case.name}, found_input=False)
             continue
         if case.name == "gen-many":
-            jobs = [{"cls": "realloc", "k": k} for k in range(1, base["report"]["count"].get(("realloc", "in"), 0) + 1)]
+            n = base["report"]["count"].get(("realloc", "in"), 0)
+            ks = list(range(1, n + 1))
+            if ctx.quick() and n > 200:          # the tail (finish phase) completely, the parsing phase sampled
+                ks = sorted(set(ctx.rng.sample(range(1, n - 63), 100)) | set(range(n - 63, n + 1)))
+            jobs = [{"cls": "realloc", "k": k} for k in ks]
         else:
             jobs = plan_faults(ctx, case, base, exhaustive=True, sample_n=0)
         model_ff = None
@@ -496,10 +501,18 @@ def run(ctx):
 
         def one(i, case=case, exe=exe, jobs=jobs):
             return jobs[i], run_case(case, exe, work / ("%s_%d" % (case.name, i)), jobs[i], env_base=env)
+
+        def rerun_if_timeout(f, r, case=case, exe=exe):
+            # a timeout under load is not a hang: repeat the one case alone with a much longer limit
+            if not r["timeout"]:
+                return r
+            stats["timeouts_rerun"] = stats.get("timeouts_rerun", 0) + 1
+            return run_case(case, exe, work / ("%s_iso" % case.name), f, env_base=env, timeout=TIMEOUT_ISOLATED)
         results = []
         with concurrent.futures.ThreadPoolExecutor(nworkers) as ex:
             for f, r in ex.map(one, range(len(jobs))):
                 results.append((f, r))
+        results = [(f, rerun_if_timeout(f, r)) for f, r in results]
         cstat = stats["by_case"].setdefault(case.name, {"faults": len(jobs), "fired": 0, "verdicts": {}})
         model_queries, pending = [], []
         for f, r in results:
@@ -605,7 +618,7 @@ def run(ctx):
         "rule": "every single fault position of every class (write/read/trunc/open/lseek/fsync/close × in/out × EIO/EINTR-then-error(/ENOSPC for writes); "
                 "malloc/calloc/realloc/strdup by project code) found by a counting run, for gensquashfs (-F and -D), tar2sqfs, sqfs2tar (plain and gzip), "
                 "rdsquashfs -u and -c on a generated input (duplicate, fragment, all-zero tails, sparse blocks, hard link, xattrs, export table); "
-                "gen-many: every realloc position on a 513-inode tree; non-trivial = distinct (tool, class, innermost two project frames) at which a fault fired",
+                "gen-many: realloc positions on a 513-inode tree (thorough: all; quick: the last 64 and 100 sampled); non-trivial = distinct (tool, class, innermost two project frames) at which a fault fired",
         "exhaustive": True,
         "samples": samples,
         "disagreements_checked": corr_bad,
@@ -636,8 +649,8 @@ def replay(ctx, path):
     cases = gen_cases(ctx, ctx.scratch / "in", random_for(rp.get("input_seed", 0)), tools, scale=rp.get("scale", 1))
     case = [c for c in cases if c.name == rp["case"]][0]
     exe = tools[case.tool]
-    base = run_case(case, exe, ctx.scratch / "w" / "base", None, env_base=env, timeout=120)
-    r = run_case(case, exe, ctx.scratch / "w" / "r", rp["fault"], env_base=env)
+    base = run_case(case, exe, ctx.scratch / "w" / "base", None, env_base=env, timeout=TIMEOUT_ISOLATED)
+    r = run_case(case, exe, ctx.scratch / "w" / "r", rp["fault"], env_base=env, timeout=TIMEOUT_ISOLATED)
     o = observe(case, base, r)
     v = verdict_py(o)
     frames = project_frames(resolve_bt(exe, r["report"]["bt"]))
